@@ -58,6 +58,33 @@ CHECKS = {
         'technique': 'TLA+ design model (Persist, safety + liveness) + TLC-generated schedules executed on the real handler in four roles + '
                      'TLC trace validation (TracePersist)',
     },
+    'C05': {
+        'text': 'Design model Executor.tla (Threadless loop over black-box works whose calls return or raise; FIX = FALSE, the code as '
+                'first found, violates LoopSurvives at get_events / is_inactive / shutdown - kept as a vacuity guard; FIX = TRUE satisfies '
+                'LoopSurvives, NoResidue and, under fairness, CanaryCompletes). (i) tlc -simulate behaviours are executed step by step on '
+                'the REAL LocalFdExecutor with scripted works raising where the behaviour says; TLC (TraceExecutor) validates the abstract '
+                'state after every step. (ii) the REAL handler stack: adversarial connections (C06 input grammar, aborts at every point, '
+                'every socket error at every call, failing upstreams; forward/tunnel/web/reverse) share the worker with a canary and are '
+                'followed by another connection; TLC (TraceIsolation) compares with the canary alone.',
+        'design_ref': 'DESIGN.md section 6, C05',
+        'note': 'Trusted: TLC, SimNet, reduction argument. Blocking TLS handshakes (interception) are not exercised (F18, DESIGN.md).',
+        'technique': 'TLA+ design model (Executor, fault enumeration over call sites) + TLC-generated fault schedules executed on the real '
+                     'Threadless with TLC trace validation + adversary/canary differential on the real handler stack judged by TLC',
+    },
+    'C06': {
+        'text': 'Builder half: the argument space of okResponse (compression threshold from both sides, reused header dictionaries), '
+                'redirects, HttpRequestRejected.response, exception responses and the canned packets is executed and every response is '
+                'judged by the TLA+ reference parser (TraceCodec op response: status line, header lines, single numeric Content-Length, '
+                'never with chunked, body length = framing, advertised content-encoding real). Handler half: token-level mutations of '
+                'valid requests, truncations, byte mutations and random bytes in forward / tunnel / web roles under several '
+                'segmentations run through the REAL handler; TLC (TraceInput) parses everything the client received: a sequence of '
+                'well-formed responses, nothing partial, Connection: close => last and followed by end-of-stream, a clean complete '
+                'request never left without reaction, worker alive.',
+        'design_ref': 'DESIGN.md section 6, C06',
+        'note': 'Trusted: TLC, SimNet, CPython zlib. Inputs are sampled from the grammar (hundreds quick, thousands thorough), not exhaustive.',
+        'technique': 'TLA+ reference parser as the independent HTTP parser (TraceCodec / TraceInput) deciding recorded builder outputs and '
+                     'recorded connections fed with grammar-mutated inputs',
+    },
     'C08': {
         'text': 'Authorized(headers, credentials) is defined in TLA+ (TraceAuth) from the RAW configured user:password (base64 computed in '
                 'TLA+) and the reference parse of the client bytes. Every credential situation (absent, scheme casings, other schemes, '
